@@ -436,14 +436,14 @@ WorkerHidden(w) ==
     [] OTHER -> FALSE
 Hidden == (\E p \in Procs : ClientHidden(p)) \/ SchedHidden \/ (\E w \in Workers : WorkerHidden(w))
 
-Visible == \/ \E p \in Procs : \/ \E op \in Ops : \/ op \in {"put", "del", "get"} /\ \E a \in Addrs : Begin(p, op, a, "")
-                                                  \/ op = "setmode" /\ \E m \in Modes : Begin(p, op, 0, m)
-                                                  \/ op \in {"flush", "reopen"} /\ Begin(p, op, 0, "")
-                              \/ Ret(p)
-                              \/ \E ok \in BOOLEAN : BlobPutC(p, ok) \/ BlobPutF(p, ok)
-                              \/ BlobDel(p) \/ BlobRead(p)
-           \/ \E w \in Workers, ok \in BOOLEAN : BlobPutW(w, ok)
-           \/ RoundMark \/ SentMark \/ (\E w \in Workers : DoneMark(w))
+AnyBegin == \E p \in Procs : \E op \in Ops : \/ (op \in {"put", "del", "get"} /\ \E a \in Addrs : Begin(p, op, a, ""))
+                                               \/ (op = "setmode" /\ \E m \in Modes : Begin(p, op, 0, m))
+                                               \/ (op \in {"flush", "reopen"} /\ Begin(p, op, 0, ""))
+AnyRet == \E p \in Procs : Ret(p)
+AnyBlobPut(ok) == (\E p \in Procs : BlobPutC(p, ok) \/ BlobPutF(p, ok)) \/ (\E w \in Workers : BlobPutW(w, ok))
+AnyBlobOther == \E p \in Procs : BlobDel(p) \/ BlobRead(p)
+Marks == RoundMark \/ SentMark \/ (\E w \in Workers : DoneMark(w))
+Visible == AnyBegin \/ AnyRet \/ AnyBlobPut(TRUE) \/ AnyBlobPut(FALSE) \/ AnyBlobOther \/ Marks
 
 Next == Hidden \/ Visible
 Spec == Init /\ [][Next]_vars
